@@ -13,7 +13,7 @@ n = 0
 for f in sorted(RES.glob("*.json")):
     d = json.loads(f.read_text())
     seed = pathlib.Path(d["seed"])
-    m = re.search(r"seed([234]?)_(C\d+)_out/(\d)(r?)$", str(seed))
+    m = re.search(r"seed([2345]?)_(C\d+)_out/(\d)(r?)$", str(seed))
     if not m:
         continue
     pid, k, rebased = m.group(2), m.group(3), bool(m.group(4))
